@@ -504,6 +504,39 @@ func gadapterCases(f lib.Flags, rng *rand.Rand) []gcase {
 		}
 		out = append(out, g)
 	}
+	// large groups (last, see largeCases in main.go): 10 and 17 members under the single-result strategies (one
+	// member's value is the answer, so the float32 mean stays exact; Pull members of a light group all hold the
+	// same level for the same reason), winner first / winner last / a failing prefix
+	for _, n := range []int{10, 17} {
+		for _, tr := range []string{"light", "onoff"} {
+			for _, rpc := range []string{"Get", "Update", "Pull"} {
+				for _, st := range []string{"one", "fast", "race"} {
+					for pat := 0; pat < 3; pat++ {
+						g := gcase{Gated: true, Trait: tr, RPC: rpc, Strat: st, Behs: make([]beh, n), Order: make([]int, n), PCancel: -1}
+						for i := range g.Behs {
+							val := 2 + i%2
+							if tr == "light" && rpc == "Pull" {
+								val = 3
+							}
+							if rpc == "Pull" || (pat == 2 && i < n/2) {
+								g.Behs[i] = gbehFail(ecPlain, i+1, true)
+								if rpc == "Pull" {
+									g.Behs[i].Normal.Msg = val
+								}
+							} else {
+								g.Behs[i] = gbehOK(val, i%3 == 0)
+							}
+							g.Order[i] = i
+							if pat == 1 {
+								g.Order[i] = n - 1 - i
+							}
+						}
+						out = append(out, g)
+					}
+				}
+			}
+		}
+	}
 	return out
 }
 
@@ -511,7 +544,7 @@ func runGatedAdapters(f lib.Flags, res *lib.Result, drv *lib.Driver, rng *rand.R
 	tie := res.Tie("group-adapters-gated", "K4",
 		"lightpb.Group and onoffpb.Group x {Get, Update, Pull} x the six strategies over GATED members (a scripted traits client whose per-member call waits for its gate, "+
 			"then answers or - being cancellation-aware - reports its context's error): EXHAUSTIVE for 0..3 members (Pull: 0..2, thorough 0..3) x every ok/fail vector (Pull: streams end with an error) "+
-			"x every completion order x caller cancellation never / after each number of completions; plus random cases with 1..4 members, mixed awareness, every error class, random values. "+
+			"x every completion order x caller cancellation never / after each number of completions; plus random cases with 1..4 members, mixed awareness, every error class, random values; plus groups of 10 and 17 members under One/Fast/Race (winner first, winner last, a failing first half). "+
 			"model = driver op `group`: the thread-level model of Execute under the same serial schedule + the Lean model of the adapter's reducer; compared: value returned (Pull: last value forwarded), "+
 			"which error, return point, the members' context state at every observation point (x = members of one call run under different contexts), what each member saw, which were started, goroutines left. "+
 			"non-trivial = n >= 1; distinct by full input")
@@ -534,11 +567,17 @@ func runGatedAdapters(f lib.Flags, res *lib.Result, drv *lib.Driver, rng *rand.R
 	} else {
 		tie.Fail(fmt.Errorf("no driver"))
 	}
-	exhaustiveUpTo := len(cases) - f.N(600, 20000)
-	leaks := 0
+	exhaustiveUpTo := len(cases) - f.N(600, 20000) - 2*2*3*3*3
+	leaks, hangs := 0, map[string]int{}
+	var thin thinner
 	for i, g := range cases {
-		if leaks >= 25 {
-			mon.Count("skipped-after-25-leaking-cases")
+		if leaks >= 12 || hangs[g.fn()] >= 2 {
+			// (as for the pkg/group cases: what a leaking / hanging case leaves behind is paid for by every later snapshot)
+			mon.Count("skipped-after-leaking-cases")
+			continue
+		}
+		if thin.skip(i, fmt.Sprint(g.fn(), "/", g.Strat, "/n=", len(g.Behs))) {
+			mon.Count("thinned-after-leaks")
 			continue
 		}
 		t := g.tcase()
@@ -574,7 +613,11 @@ func runGatedAdapters(f lib.Flags, res *lib.Result, drv *lib.Driver, rng *rand.R
 		o := runCase(t)
 		if suspicious(o) {
 			mon.Count("retried-cases")
-			for k := 0; k < 3; k++ {
+			retries := 3
+			if o.Stuck != "" || len(o.Left) > 0 {
+				retries = 1
+			}
+			for k := 0; k < retries; k++ {
 				if o2 := runCase(t); !suspicious(o2) {
 					mon.Count("retried-and-vanished")
 					mon.Count("retried-and-vanished:" + g.line() + " first=" + o.canon(t))
@@ -585,6 +628,9 @@ func runGatedAdapters(f lib.Flags, res *lib.Result, drv *lib.Driver, rng *rand.R
 		}
 		if len(o.Left) > 0 {
 			leaks++
+		}
+		if o.Stuck != "" && o.Ret < 0 {
+			hangs[g.fn()]++
 		}
 		if answers != nil {
 			tie.Record(g.line(), len(g.Behs) >= 1, g, answers[i], o.canon(t))
@@ -607,4 +653,3 @@ func runGatedAdapters(f lib.Flags, res *lib.Result, drv *lib.Driver, rng *rand.R
 		gadapterMonitor(mon, g, o)
 	}
 }
-
